@@ -337,6 +337,43 @@ class Interp:
                     elif held.name.startswith("func:"):
                         fname = held.name[5:]
                 fval = held
+            if fname == "next" and 1 <= len(e.args) <= 2 and not e.keywords and isinstance(e.args[0], ast.GeneratorExp) and len(e.args[0].generators) == 1 \
+                    and "next" not in st.env:
+                # next((elt for x in seq if cond), default): the generator is consumed lazily - elements after the first
+                # match are never looked at (their conditions may raise)
+                ge = e.args[0]
+                gen0 = ge.generators[0]
+                seq_n = self.iterate(self.eval(gen0.iter, st), st)
+                if seq_n is not None and st.pending is None:
+                    sub_n = st.fork()
+                    sub_n.effects, sub_n.heap, sub_n._next = st.effects, st.heap, st._next
+                    undecided = False
+                    for el in seq_n:
+                        self._assign(gen0.target, el, sub_n)
+                        keep: Optional[bool] = True
+                        for c in gen0.ifs:
+                            t_n = self._truth_of(c, sub_n)
+                            if sub_n.pending is not None:
+                                st.pending = sub_n.pending
+                                return U("condition of the generator raised")
+                            if t_n is None:
+                                undecided = True
+                                break
+                            if not t_n:
+                                keep = False
+                                break
+                        if undecided:
+                            break
+                        if keep:
+                            v_n = self.eval(ge.elt, sub_n)
+                            if sub_n.pending is not None:
+                                st.pending = sub_n.pending
+                            return v_n
+                    if not undecided:
+                        if len(e.args) == 2:
+                            return self.eval(e.args[1], st)
+                        st.pending = st.pending or "StopIteration"
+                        return U("StopIteration")
             args = []
             for a in e.args:
                 av = self.eval(a, st)
